@@ -150,6 +150,10 @@ def mutate(m, what, a, b, c, case):
     if what == 'delete_attribute':
         plain = [(n, t) for n, t in mc.attributes if n not in mc.referential_attributes
                  and n not in mc.identifying_attributes]
+        if b % 3 == 0 and not insts:
+            # also a key of an association or a member of an identifier (of a class without instances: what reading such
+            # an instance gives is not the subject here); the other metamodels keep their keys and identifiers
+            plain = list(mc.attributes)
         if not plain:
             return None
         mc.delete_attribute(plain[c % len(plain)][0])
